@@ -96,7 +96,7 @@ pub fn gen_graph(rng: &mut Rng, p: &GraphParams) -> Graph {
         let mut stmts = Vec::new();
         if rng.chance(p.out_file_pm, 1000) {
             stmts.push(Stmt::Out {
-                mode: OutMode::File,
+                mode: if rng.chance(1, 3) { OutMode::Append } else { OutMode::File },
                 pad: 0,
             });
         }
@@ -216,6 +216,8 @@ pub fn add_fail_flags(rng: &mut Rng, g: &mut Graph, n_fail: usize) -> Vec<(Strin
         let flag = format!("f{}", k);
         g.files.push((flag.clone(), b"0\n".to_vec()));
         let partial = rng.chance(1, 2);
+        // sometimes the partial output goes to $1 itself before the failure
+        let direct = partial && rng.chance(1, 3);
         let code = *rng.pick(&[1, 2, 7, 42]);
         let r = &mut g.rules[i].1;
         // after the ifchange statements so that dependencies are built first,
@@ -227,6 +229,7 @@ pub fn add_fail_flags(rng: &mut Rng, g: &mut Graph, n_fail: usize) -> Vec<(Strin
                 flag: flag.clone(),
                 code,
                 partial,
+                direct,
             },
         );
         r.stmts.insert(at, Stmt::IfChange(vec![flag.clone()]));
